@@ -2,7 +2,7 @@
    identifier requests on the Seal model (H := SHA-256) and compares the answers and
    the final graph with what the real implementation did.                          *)
 From Coq Require Import ZArith NArith List Bool.
-From XV Require Import core.Value core.Sha256 model.Hash model.Cache model.Seal.
+From XV Require Import core.Value core.Sha256 model.Hash model.Cache model.Seal model.StateInv.
 Import ListNotations.
 
 Fixpoint value_eqb (a b : value) {struct a} : bool :=
@@ -72,3 +72,9 @@ Record kcase := {
 Definition check_kcase (c : kcase) : bool :=
   let r := srun sha256 (k_classes c) (hash_fuel (k_heap c) + 64) (k_heap c, k_cache c) (k_ops c) in
   list_eqb2 sans_ok (snd r) (k_expect c) && list_eqb (node_eqb (k_classes c)) (fst (fst r)) (k_final c).
+
+(* the hypothesis of C14_coherent_under_edits / C14_sealed_identity_stable, evaluated on the exported state *)
+Definition inv_kcase (c : kcase) : bool :=
+  ginv_b sha256 (k_classes c) (hash_fuel (k_heap c) + 64) (k_heap c, k_cache c).
+Definition diag_kcase (c : kcase) : list nat :=
+  ginv_diag sha256 (k_classes c) (hash_fuel (k_heap c) + 64) (k_heap c, k_cache c).
